@@ -307,6 +307,9 @@ theorem active_unregAll (q : Q) (cn : Conn) (s : State) (ws : List W)
 
 theorem inv_unwatch (q : Q) (s : State) (now c : Nat) (hi : Inv q s) : Inv q (step q s now (.unwatch c)).1 := by
   rw [step_unwatch]
+  split
+  · exact inv_setConn q s c { (s.conn c) with queued := (s.conn c).queued + 1 } hi (fun w h => h) (fun d sh => Nat.le_refl _) (fun _ _ => rfl)
+  rename_i hnq
   have heff : ∀ w ∈ (s.conn c).watched, effDb q (s.conn c) w = w.regDb := by
     intro w m
     unfold effDb
@@ -412,6 +415,7 @@ theorem inv_step (q : Q) (s : State) (now : Nat) (ev : Ev) (hi : Inv q s) (hs : 
     split
     · exact inv_setConn q s c { (s.conn c) with queued := (s.conn c).queued + 1 } hi (fun w h => h) (fun d sh => Nat.le_refl _) (fun _ _ => rfl)
     · exact inv_of_grows q _ _ hi (grows_applyOps _ _ _) (conns_applyOps _ _ _) (fun d sh => active_applyOps _ _ _ d sh)
+  | refused c => exact hi
   | sweep d k m =>
     rw [step_sweep]
     exact inv_of_grows q _ _ hi (grows_sweepKey _ _ _ _ _) (conns_sweepKey _ _ _ _ _) (fun d' sh' => active_sweepKey _ _ _ _ _ d' sh')
